@@ -537,7 +537,9 @@ pub fn run_case(id: usize, input: &Value) {
     let (out_lens, null_filters) = match pre { Ok(x) => x, Err(e) => { emit(id, "", input.clone(), &["panic".to_string()], false, json!({"panic": e, "phase": "native dry run"})); return; } };
     let run_once = |record: bool| -> Result<((bool, Vec<String>), alloc_audit::Audit), String> {
         let ops1 = ops.clone();
-        if record { alloc_audit::start(); }
+        // the recording (hence the deferral of every release) is on for the warm-up run too: a double free must never
+        // reach the system allocator, whose reaction is an abort
+        alloc_audit::start();
         let r = catch(move || run_program(&ops1));
         alloc_audit::stop();
         let a = if record { alloc_audit::audit() } else { alloc_audit::Audit::default() };
